@@ -1,77 +1,132 @@
-(* Data/SpecK.v — strings in the reference model: Redis semantics on a map key -> value.
-   Written from the Redis command reference (SET, SETNX, GETSET, INCR, INCRBY, APPEND, SETRANGE, DEL, GET,
-   MGET, GETRANGE, STRLEN, EXISTS):
+(* Data/SpecK.v — strings in the reference model: Redis semantics on a map key -> (expiry second, value).
+   Written from the Redis command reference (SET, SETNX, SETEX, GETSET, INCR, INCRBY, APPEND, SETRANGE, DEL,
+   EXPIRE, PERSIST, TTL, GET, MGET, GETRANGE, STRLEN, EXISTS):
      * INCR/INCRBY refuse a non-integer value and an overflowing sum;
      * APPEND / SETRANGE reply the new length; with an empty argument the current length (APPEND creates
        the empty string on a missing key, SETRANGE does not create it);
      * SETRANGE pads with zero bytes; GETRANGE clamps like redis (negative end clamps to 0) and replies
        the empty string for an empty range;
-     * DEL counts every existing key once, EXISTS counts with multiplicity.
+     * DEL counts every existing key once, EXISTS counts with multiplicity;
+     * expiry (wait_compact policy; second granularity): a key whose expiry second is not after the
+       second of the command's clock is ABSENT for that command (raft entry timestamp for a write,
+       wall clock of the serving node for a read).  SET / SETEX / GETSET replace the expiry, the other
+       writes keep the expiry of a present key and start without one on an absent key.  The entry of
+       an absent-by-expiry key stays in the map until a write replaces it (it stays absent: clocks
+       do not go back), which is the lazy deletion of Redis itself.
+       Declared reply conventions of the TTL family (ZanRedisDB, not Redis): TTL replies -1 for a
+       missing key as well (Redis: -2); PERSIST replies 1 for every present key (Redis: 0 without
+       expiry); SETEX refuses a non-positive time; an expiry second beyond the 32 bit header field
+       is refused; EXPIRE with a time reaching before the epoch expires the key at once.
+     * local_deletion policy (documented in doc/user-guide.md): expiry is not visible to commands
+       (keys are removed later by a background sweep: property C10), TTL is -1, PERSIST is refused.
    The SET reply of the state machine is the integer 1 (the node layer rewrites it to OK).
    No proofs in this file. *)
 From ZV Require Export Data.Base.
-From ZV Require Import Data.Consts Data.MapK.
+From ZV Require Import Data.Consts Data.Exp Data.MapK.
 Open Scope Z_scope.
 
-Definition sstore := list (bytes * bytes).
+Definition sval := (Z * bytes)%type.
+Definition sstore := list (bytes * sval).
 
-Fixpoint del_keys (ks : list bytes) (m : sstore) : sstore * Z :=
+(* the entry of a key that is present at clock t *)
+Definition present (compact : bool) (t : Z) (k : bytes) (m : sstore) : option sval :=
+  match aget bytes_eqb k m with
+  | Some (e, v) => if dead compact e t then None else Some (e, v)
+  | None => None
+  end.
+Definition value_at (compact : bool) (t : Z) (k : bytes) (m : sstore) : option bytes :=
+  match present compact t k m with Some (_, v) => Some v | None => None end.
+Definition expiry_at (compact : bool) (t : Z) (k : bytes) (m : sstore) : Z :=
+  match present compact t k m with Some (e, _) => e | None => 0 end.
+Definition is_present (compact : bool) (t : Z) (m : sstore) (k : bytes) : bool :=
+  match present compact t k m with Some _ => true | None => false end.
+
+Fixpoint del_keys (compact : bool) (t : Z) (ks : list bytes) (m : sstore) : sstore * Z :=
   match ks with
   | [] => (m, 0)
   | k :: r => if key_ok k && amem bytes_eqb k m
-              then let '(m', n) := del_keys r (adel bytes_eqb k m) in (m', n + 1)
-              else del_keys r m
+              then let '(m', n) := del_keys compact t r (adel bytes_eqb k m) in
+                   (m', if is_present compact t m k then n + 1 else n)
+              else del_keys compact t r m
   end.
 
-Definition kstep (c : kcmd) (m : sstore) : sstore * reply :=
+Definition kstep (compact : bool) (ts : Z) (c : kcmd) (m : sstore) : sstore * reply :=
+  let val k := value_at compact ts k m in
+  let keep k := expiry_at compact ts k m in
   match c with
   | KCinvalid => (m, RErr)
-  | KCset k v => if negb (key_ok k) || negb (value_ok v) then (m, RErr) else (aput bytes_eqb k v m, RInt 1)
+  | KCset k v => if negb (key_ok k) || negb (value_ok v) then (m, RErr) else (aput bytes_eqb k (0, v) m, RInt 1)
+  | KCsetex k dur v =>
+      if (dur <=? 0) || negb (key_ok k) || negb (value_ok v) then (m, RErr)
+      else if compact then
+        if when_overflows (sec_of ts + dur) then (m, RErr) else (aput bytes_eqb k (sec_of ts + dur, v) m, RNil)
+      else if int64_max <? sec_of ts + dur then (m, RErr) else (aput bytes_eqb k (0, v) m, RNil)
   | KCsetnx k v =>
       if negb (value_ok v) || negb (key_ok k) then (m, RErr)
-      else if amem bytes_eqb k m then (m, RInt 0) else (aput bytes_eqb k v m, RInt 1)
+      else if is_present compact ts m k then (m, RInt 0) else (aput bytes_eqb k (0, v) m, RInt 1)
   | KCgetset k v =>
       if negb (value_ok v) || negb (key_ok k) then (m, RErr)
-      else (aput bytes_eqb k v m, ropt (aget bytes_eqb k m))
+      else (aput bytes_eqb k (0, v) m, ropt (val k))
   | KCincrby k d =>
       if negb (key_ok k) then (m, RErr)
-      else match (match aget bytes_eqb k m with Some b => parse_int64 b | None => Some 0 end) with
+      else match (match val k with Some b => parse_int64 b | None => Some 0 end) with
            | None => (m, RErr)
            | Some n0 => if negb (in_int64 (n0 + d)) then (m, RErr)
-                        else (aput bytes_eqb k (format_int (n0 + d)) m, RInt (n0 + d))
+                        else (aput bytes_eqb k (keep k, format_int (n0 + d)) m, RInt (n0 + d))
            end
   | KCappend k v =>
       if negb (key_ok k) then (m, RErr)
-      else let old := match aget bytes_eqb k m with Some b => b | None => [] end in
-           match aget bytes_eqb k m, v with
+      else let old := match val k with Some b => b | None => [] end in
+           match val k, v with
            | Some _, [] => (m, RInt (blen old))
            | _, _ => if max_value_size <? blen old + blen v then (m, RErr)
-                     else (aput bytes_eqb k (old ++ v) m, RInt (blen old + blen v))
+                     else (aput bytes_eqb k (keep k, old ++ v) m, RInt (blen old + blen v))
            end
   | KCsetrange k off v =>
-      let old := match aget bytes_eqb k m with Some b => b | None => [] end in
+      let old := match val k with Some b => b | None => [] end in
       if (off <? 0) || (max_value_size <? off) then (m, RErr)
       else match v with
       | [] => if negb (key_ok k) then (m, RErr) else (m, RInt (blen old))
       | _ => if (max_value_size <? blen v + off) || negb (key_ok k) then (m, RErr)
-             else let nv := set_range old (Z.to_nat off) v in (aput bytes_eqb k nv m, RInt (blen nv))
+             else let nv := set_range old (Z.to_nat off) v in (aput bytes_eqb k (keep k, nv) m, RInt (blen nv))
       end
-  | KCdel ks => let '(m', n) := del_keys ks m in (m', RInt n)
+  | KCdel ks => let '(m', n) := del_keys compact ts ks m in (m', RInt n)
+  | KCexpire k dur =>
+      if negb (key_ok k) then (m, RErr)
+      else match present compact ts k m with
+           | None => (m, RInt 0)
+           | Some (_, v) =>
+               if compact then
+                 if when_overflows (expire_when ts dur) then (m, RErr)
+                 else (aput bytes_eqb k (expire_when ts dur, v) m, RInt 1)
+               else if int64_max <? sec_of ts + dur then (m, RErr) else (m, RInt 1)
+           end
+  | KCpersist k =>
+      if negb (key_ok k) then (m, RErr)
+      else match present compact ts k m with
+           | None => (m, RInt 0)
+           | Some (_, v) => if compact then (aput bytes_eqb k (0, v) m, RInt 1) else (m, RErr)
+           end
   end.
 
-Definition kquery (q : kqry) (m : sstore) : reply :=
+Definition kquery (compact : bool) (now : Z) (q : kqry) (m : sstore) : reply :=
+  let val k := value_at compact now k m in
   match q with
   | KQinvalid => RErr
-  | KQget k => if negb (key_ok k) then RErr else ropt (aget bytes_eqb k m)
+  | KQget k => if negb (key_ok k) then RErr else ropt (val k)
   | KQstrlen k => if negb (key_ok k) then RErr
-                  else RInt (match aget bytes_eqb k m with Some b => blen b | None => 0 end)
+                  else RInt (match val k with Some b => blen b | None => 0 end)
   | KQexists ks =>
       match ks with
-      | [k] => if negb (key_ok k) then RErr else rbool (amem bytes_eqb k m)
-      | _ => RInt (Z.of_nat (length (filter (fun k => key_ok k && amem bytes_eqb k m) ks)))
+      | [k] => if negb (key_ok k) then RErr else rbool (is_present compact now m k)
+      | _ => RInt (Z.of_nat (length (filter (fun k => key_ok k && is_present compact now m k) ks)))
       end
-  | KQmget ks => RArr (map (fun k => if key_ok k then ropt (aget bytes_eqb k m) else RNil) ks)
+  | KQmget ks => RArr (map (fun k => if key_ok k then ropt (val k) else RNil) ks)
   | KQgetrange k s e =>
       if negb (key_ok k) then RErr
-      else RBulk (get_range (match aget bytes_eqb k m with Some b => b | None => [] end) s e)
+      else RBulk (get_range (match val k with Some b => b | None => [] end) s e)
+  | KQttl k =>
+      if negb compact then RInt (-1)
+      else if negb (key_ok k) then RErr
+      else RInt (ttl_of (expiry_at compact now k m) now)
   end.
